@@ -150,10 +150,12 @@ def main(argv):
         ["127.0.0.1", "127.0.0.1:11212", "cache-a"],
         [("cache-a", 11211), "127.0.0.1:11212", "127.0.0.1"],
     ]
+    mixed_case = [[("Cache-A.Internal", 11211), ("CACHE-B", 11212), ("node3.example", 11211)], ["Cache-A.Internal:11211", "CACHE-B:11212", "node3.example"],
+                  ["Cache-A.Internal", ("CACHE-B", 11212), "node3.example:11211"]]
     unix = [["unix:/tmp/a.sock", ("h", 1)], ["/tmp/a.sock", "h:1"]]
     v6 = [["[::1]:11211", "[fe80::1]"], [("::1", 11211), ("fe80::1", 11211)]]
     corpus = ["key%d" % i for i in range(3000 if ctx.thorough else 600)]
-    for group in (spellings, unix, v6):
+    for group in (spellings, mixed_case, unix, v6):
         placements = []
         for servers in group:
             FakeClient.log = []
